@@ -35,14 +35,14 @@ def build(tier):
            bounds='arbitrary bucket with a hit for the key; ply in [0,200]; scores whose win/loss class is stable under the ply shift; contempt 0 (with a non-zero contempt setBusy hands the already xor-ed key to insert, which xors it again: the busy marker then goes to another key - outside C08\'s statement, see DESIGN section 6)'),
     ]
     # ---- O6: isolation of the tablebase region ("ordinary stores never touch that part"): the C12 obligations O6-region (byte window of TTStorage vs the buckets
-    # getIndex can yield, table sizes up to 2^35 entries) and O6-lanes (byte-lane arithmetic), re-run under this property; quick: one material class per men count
+    # getIndex can yield, table sizes up to 2^35 entries) and O6-lanes (byte-lane arithmetic), and O5-updatetb (updateTB installs exactly usedSize = tableSize - 5 MiB/16, the premise of O6-region), re-run under this property; quick: one material class per men count
     import copy
     from props import C12
     units12, obs12 = C12.build(tier)
     extra = []
     want = ('O6-region@c0', 'O6-region@c1', 'O6-region@c9') if tier == 'quick' else None
     for o in obs12:
-        if o.oid == 'O6-lanes' or (o.oid.startswith('O6-region') and (want is None or o.oid in want)):
+        if o.oid == 'O6-lanes' or o.oid.startswith('O5-updatetb') or (o.oid.startswith('O6-region') and (want is None or o.oid in want)):
             o2 = copy.copy(o); obs.append(o2)
             if o.unit not in extra: extra.append(o.unit)
             for lem in o.unit.lemmas:
